@@ -364,7 +364,7 @@ m("dotident-from-new-token", ["C14"], "break", "lexer.go",
 
 # round 6
 m("spaces-four-only", ["C16"], "break", "lexer.go",
-  "		case unicode.IsSpace(r):\n			l.skipN(size)", "		case r == ' ' || r == '\\t' || r == '\\n' || r == '\\r':\n			l.skipN(size)", "form feed and vertical tab are no longer white space")
+  "		case unicode.IsSpace(r):\n			l.skipN(size)", "		case unicode.IsSpace(r) && r != '\\v' && r != '\\f':\n			l.skipN(size)", "form feed and vertical tab are no longer white space")
 m("spaces-underscore", ["C16", "C13"], "break", "lexer.go",
   "		case unicode.IsSpace(r):\n			l.skipN(size)", "		case unicode.IsSpace(r) || r == 0x1f:\n			l.skipN(size)", "the unit separator 0x1f is skipped as white space")
 m("spaces-trimleft", ["C16", "C13"], "keep", "lexer.go",
